@@ -305,6 +305,15 @@ func verify(p *lua.FunctionProto, st *Stats, out *[]Problem, depth int) {
 			add("implicit-range", "implicit register range reaches %d (beyond the 8-bit register space)", last)
 		}
 	}
+	// registers an instruction writes without naming them one by one (results of
+	// a call, the method slot of SELF, loop variables, the values of a fixed-count
+	// VARARG) belong to the frame like any operand
+	written := func(pc int, opn string, last int) {
+		implicit(last)
+		if last >= nreg && last <= 255 {
+			add("implicit-write-over-count:"+opn, "pc %d %s writes registers up to %d, NumUsedRegisters is %d", pc, opn, last, nreg)
+		}
+	}
 	lastOp := -1
 	for pc := 0; pc < n; {
 		inst := code[pc]
@@ -374,7 +383,7 @@ func verify(p *lua.FunctionProto, st *Stats, out *[]Problem, depth int) {
 				implicit(A + B - 1)
 			}
 			if op == lua.OP_CALL && C > 1 {
-				implicit(A + C - 2)
+				written(pc, "CALL", A+C-2)
 			}
 		case lua.OP_RETURN:
 			if B > 1 {
@@ -385,18 +394,18 @@ func verify(p *lua.FunctionProto, st *Stats, out *[]Problem, depth int) {
 				add("concat-range", "pc %d CONCAT: C %d < B %d", pc, C, B)
 			}
 		case lua.OP_SELF:
-			implicit(A + 1)
+			written(pc, "SELF", A+1)
 		case lua.OP_FORLOOP, lua.OP_FORPREP:
-			implicit(A + 3)
+			written(pc, "FORLOOP/FORPREP", A+3)
 		case lua.OP_TFORLOOP:
-			implicit(A + 2 + C)
+			written(pc, "TFORLOOP", A+2+C)
 			if pc+1 >= n || int(code[pc+1]>>26) != lua.OP_JMP {
 				add("test-without-jump:TFORLOOP", "pc %d TFORLOOP is not followed by a JMP", pc)
 			}
 			target(pc, "TFORLOOP", pc+2)
 		case lua.OP_VARARG:
 			if B > 1 {
-				implicit(A + B - 2)
+				written(pc, "VARARG", A+B-2)
 			}
 		case lua.OP_SETLIST:
 			implicit(A + B)
